@@ -81,6 +81,7 @@ PRELUDE = (("ns", "D", "ex", "A"), ("ns", "D", "q", "A"), ("bun", "B1", ("A", "b
 
 class C08(spec.Spec):
     prop = "C08"
+    judges_nonconformant_calls = True  # see nonconformance()
 
     def __init__(self, tier, params=None):
         super().__init__(tier, params)
@@ -106,7 +107,22 @@ class C08(spec.Spec):
         # look-ups (of an absent, of a present identifier) interleaved with the additions
         ops += [("get", "D", ("A", "nothere", S("ex"))), ("get", "D", ("A", "nothere2", S("ex"))),
                 ("get", "D", ("A", "x", S("ex"))), ("get", "B1", ("A", "nothere", S("ex")))]
+        # the editor that bypasses add_attributes, and a reading operation in the middle of the history
+        ops += [("settime", "start", "t2"), ("settime", "end", "t1"), ("read",)]
         self.alphabet = ops
+
+    def nonconformance(self, st, hist, op, exc, out):
+        """the record's own reading API disagrees with the calls made (st.ref is the model after the call): unified()
+        is judged against the calls, i.e. against the reference model, instead of against that reading"""
+        out.filters["builder-nonconformance(C03/C18)"] += 1
+        if op[0] not in ("settime", "at", "asrt"):
+            return
+        ref = st.ref
+        top = tuple(machine.model_robs(r) for r in ref.sc["D"].records)
+        bundles = tuple((ref.bundle_uri[slot], tuple(machine.model_robs(r) for r in ref.sc[slot].records))
+                        for slot in st.bundles)
+        st.hist = hist
+        self.check_state(st, out, source=(top, bundles))
 
     def build(self, hist):
         st = machine.State()
@@ -136,11 +152,11 @@ class C08(spec.Spec):
     def ops(self, hist):
         return [repr(o) for o in list(PRELUDE) + self._as_ops(hist)]
 
-    def check_state(self, st, out):
+    def check_state(self, st, out, source=None):
         doc = st.doc
         hist = st.hist
         before = (observe.dobs_ordered(doc), observe.nsobs(doc))
-        top, bundles = before[0]
+        top, bundles = before[0] if source is None else source
         want_top, conflict = ref_unified(list(top))
         want_b = {}
         for uri, rs in bundles:
@@ -196,7 +212,7 @@ class C08(spec.Spec):
         # bundle-level unified()
         for b in doc.bundles:
             w = want_b[b.identifier.uri]
-            _, c = ref_unified(observe.records_obs(b))
+            _, c = ref_unified(observe.records_obs(b) if source is None else list(dict(bundles)[b.identifier.uri]))
             try:
                 ub = b.unified()
             except ProvException:
